@@ -15,6 +15,7 @@ import (
 	"fmt"
 	"os"
 	"runtime"
+	"runtime/debug"
 	"sort"
 	"strings"
 	"sync"
@@ -55,7 +56,7 @@ func storesFor(r *run.R, i int) []storeCfg {
 }
 
 func genCase(r *run.R, i int) *history {
-	o := genOpts{quick: r.Quick(), minLen: 20, maxLen: 150, reopenEvery: !r.Quick() && i%2 == 1}
+	o := genOpts{minLen: 20, maxLen: 150, reopenEvery: !r.Quick() && i%4 == 1}
 	return generate(r.Rand(1, uint64(i)), fmt.Sprintf("h%d", i), storesFor(r, i), o)
 }
 
@@ -293,7 +294,9 @@ func TestC09(t *testing.T) {
 	r := run.New(t, "C09", "exploration")
 	defer r.Finish()
 	race := os.Getenv("VERIF_RACE") == "1"
-	r.Rule("one evaluation = one generated history (20-150 steps: AddAddr(s)/SetAddr(s) incl. multi-address deletes/UpdateAddrs/ClearAddrs/ConsumePeerRecord with lower, equal, higher seq and changing, possibly empty address lists/clock advances onto, before and after expiries and GC ticks; 3 random close+reopen points, thorough: after every step in every second history) applied in a synctest bubble to the real pstoremem and pstoreds (MapDatastore; cache 0/1/16 x full-purge/lookahead GC) in lock-step with a reference model written from the statement; after every step a random subset of {Addrs(p), GetPeerRecord(p), PeersWithAddrs} (all of them at the end, after every reopen, and after a final complete collection) is compared with the model, plus the pstoremem heap/map invariant walk and entry-by-entry (TTL class, expiry) comparison; non-trivial = the history had an address expire by clock advance, a dead peer that a store's collector had to have unlisted, a reopen with live addresses and an accepted signed record; distinct = distinct generated history text")
+	// short-lived garbage dominates (thousands of tiny stores and bubbles); the live heap stays small
+	defer debug.SetGCPercent(debug.SetGCPercent(800))
+	r.Rule("one evaluation = one generated history (20-150 steps: AddAddr(s)/SetAddr(s) incl. multi-address deletes/UpdateAddrs/ClearAddrs/ConsumePeerRecord with lower, equal, higher seq and changing, possibly empty address lists/clock advances onto, before and after expiries and GC ticks; 3 random close+reopen points, thorough: after every step in every fourth history) applied in a synctest bubble to the real pstoremem and pstoreds (MapDatastore; cache 0/1/16 x full-purge/lookahead GC) in lock-step with a reference model written from the statement; after every step a random subset of {Addrs(p), GetPeerRecord(p), PeersWithAddrs} (all of them at the end, after every reopen, and after a final complete collection) is compared with the model, plus the pstoremem heap/map invariant walk and entry-by-entry (TTL class, expiry) comparison; non-trivial = the history had an address expire by clock advance, a dead peer that a store's collector had to have unlisted, a reopen with live addresses and an accepted signed record; distinct = distinct generated history text")
 	r.Assume(
 		"second granularity: the clock only takes whole-second values (the datastore book stores whole seconds); sub-second expiry is not compared (DESIGN.md §4)",
 		"operations are sequential within a history (one goroutine; the stores' GC goroutines run only while the clock advances and are quiescent (synctest.Wait) before the next operation); concurrent callers are exercised only by the crash/invariant/race workload",
@@ -302,8 +305,13 @@ func TestC09(t *testing.T) {
 		"capped in-memory books (per-peer 2, global 3) are judged by a relation, not by equality with the uncapped model; pstoreds runs with its cap out of reach",
 		"AddrStream is not observed",
 	)
+	r.Extra("universe", map[string]any{"peers": nPeers, "addresses": baseAddrs, "address_forms": []string{"plain", "/p2p/<own id>", "/p2p/<another peer>"},
+		"ttls":           []string{"-1ns", "0", "1s", "10s", "TempAddrTTL(2m)", "RecentlyConnectedAddrTTL(15m)", "ConnectedAddrTTL", "PermanentAddrTTL"},
+		"history_length": "20-150", "stores_per_history": map[string]string{"quick": "pstoremem + 2 of the 6 pstoreds configurations (all pairs rotate) + a capped pstoremem in 2 of 5 histories", "thorough": "pstoremem + all 6 pstoreds configurations + a capped pstoremem in 2 of 5 histories"},
+		"pstoreds": "MapDatastore/MutexWrap x CacheSize {0,1,16} x GC {full purge, lookahead}; GCPurgeInterval {5s,20s,60s}, GCLookaheadInterval {1,2,4} x purge, GCInitialDelay {0,1s,7s} per history",
+		"reopen":   "quick: 3 random points per history; thorough: 3 random points, after every step in every fourth history"})
 	if race {
-		concurrent(r, t, r.Pick(150, 600))
+		concurrent(r, t, r.Pick(400, 4000))
 		r.Require("concurrent_ops", 1000)
 		return
 	}
